@@ -289,3 +289,104 @@ func genHdrBlock(t *rapid.T) CaseHdrBlock {
 }
 
 var C07Block = Register(&Check[CaseHdrBlock]{Prop: "C07", Name: "C07.block", Gen: genHdrBlock, Eval: evalHdrBlock})
+
+// enumHdrBlocks enumerates small header blocks exhaustively for the model-by-construction oracle: one header over
+// every combination of name kind x blank before the colon x whitespace/fold after it x value shape (empty, token,
+// inner blanks, folded) x trailing whitespace x line end, two headers over a reduced product, each under the three
+// blank-line kinds, ample / one-element / no header array, hb == nil (generic values) and hb == &PHdrVals (typed names
+// with valid values). allCuts: every single cut of the block, otherwise one-shot and one cut in the middle.
+func enumHdrBlocks(allCuts bool, shard, nshards int, emit func(CaseHdrBlock) bool) {
+	eols := []string{"\r\n", "\n", "\r"}
+	type nv struct {
+		name string
+		vals []string
+	}
+	generic := []nv{{"From", nil}, {"f", nil}, {"X-Hdr", nil}, {"l", nil}, {"Via", nil}, {"call-id", nil}}
+	gvals := []string{"", "v", "a  b", "a\r\n b", "a,\r\n\tb c"}
+	typed := []nv{{"From", []string{"<sip:a@b>;tag=1", "\"x, y\" <sip:a@b>"}}, {"t", []string{"sip:c@d;tag=2"}}, {"l", []string{"0", "12"}},
+		{"Via", []string{"SIP/2.0/UDP h;branch=z9hG4bKx"}}, {"X-Hdr", []string{"", "v", "a\r\n b"}}, {"CSeq", []string{"1 INVITE"}},
+		{"Contact", []string{"<sip:c@d>;expires=3 , <sip:e@f>", "*"}}, {"m", []string{"sip:g@h"}}, {"Call-ID", []string{"abc@h"}}}
+	mkSpecs := func(tbl []nv, pre, post, trail, eol []string) []HdrSpec {
+		var out []HdrSpec
+		for _, e := range tbl {
+			vs := e.vals
+			if vs == nil {
+				vs = gvals
+			}
+			for _, v := range vs {
+				for _, pw := range pre {
+					for _, po := range post {
+						for _, tr := range trail {
+							for _, el := range eol {
+								out = append(out, HdrSpec{Name: B(e.name), PreWS: B(pw), PostLWS: B(po), Val: B(v), TrailWS: B(tr), EOL: B(el)})
+							}
+						}
+					}
+				}
+			}
+		}
+		return out
+	}
+	idx := 0
+	run := func(hs []HdrSpec, isTyped bool) bool {
+		idx++
+		if idx%nshards != shard {
+			return true
+		}
+		for _, blank := range eols {
+			for _, hcap := range []int{64, 1, -1} {
+				c := CaseHdrBlock{Hdrs: append([]HdrSpec{}, hs...), Blank: B(blank), Tail: B("b"), Typed: isTyped, HdrCap: hcap, CtCap: 1}
+				m := MsgSpec{Hdrs: c.Hdrs, Blank: c.Blank, Body: c.Tail, FL: FLSpec{EOL: B("\r\n")}}
+				fixMsgSpec(&m)
+				c.Hdrs, c.Blank = m.Hdrs, m.Blank
+				buf, _, _ := c.render()
+				cuts := []int{0, len(buf) / 2}
+				if allCuts {
+					cuts = cuts[:1]
+					for k := 1; k < len(buf); k++ {
+						cuts = append(cuts, k)
+					}
+				}
+				for _, k := range cuts {
+					c.Sched = nil
+					if k > 0 {
+						c.Sched = []int{k}
+					}
+					if !emit(c) {
+						return false
+					}
+				}
+			}
+		}
+		return true
+	}
+	for _, isTyped := range []bool{false, true} {
+		tbl := generic
+		if isTyped {
+			tbl = typed
+		}
+		one := mkSpecs(tbl, []string{"", " ", "\t "}, []string{"", " ", "\r\n ", " \r\n\t"}, []string{"", " ", "\r\n "}, eols)
+		for _, h := range one {
+			if !run([]HdrSpec{h}, isTyped) {
+				return
+			}
+		}
+		two := mkSpecs(tbl, []string{"", " "}, []string{"", "\r\n "}, []string{"", " "}, eols)
+		if isTyped {
+			two = mkSpecs(tbl, []string{"", " "}, []string{" "}, []string{"", " "}, []string{"\r\n", "\n"})
+		}
+		for _, a := range two {
+			for _, b := range two {
+				if isTyped {
+					la, lb := asciiLower(a.Name), asciiLower(b.Name)
+					if la == lb && la != "contact" && la != "x-hdr" {
+						continue // a repeated From/To/Call-ID/CSeq/Content-Length is C05/C12 material
+					}
+				}
+				if !run([]HdrSpec{a, b}, isTyped) {
+					return
+				}
+			}
+		}
+	}
+}
